@@ -22,6 +22,8 @@ def configs(tier):
         out.append(dict(part="vloss_seq", aux=aux, ncalls=(4 if tier == "quick" else 5), x64=True))
     out.append(dict(part="vloss_seq", aux="none", ncalls=4, ties=True, x64=True))       # repeated parameters on a one-point validation set: exact ties
     out.append(dict(part="solve", n_iter=(4 if tier == "quick" else 6), x64=True))
+    # the module gets the post-update parameters also when they are NaN (NaN domain and fault injection of C18: gradient of theta)
+    out.append(dict(part="solve_nan", n_iter=(3 if tier == "quick" else 4), x64=True))
     return out
 
 
@@ -58,6 +60,9 @@ def tree_eq(a, b):
 def run(cfg, R):
     part = cfg["part"]
     if part == "solve": return run_solve(cfg, R)
+    if part == "solve_nan":
+        from . import c18
+        return c18.run(dict(fault="grad_theta", opt="sgd", n_iter=cfg["n_iter"], n=3, b=2, val=True, x64=True), R)
     import jinns
     from jinns.validation._validation import ValidationLoss
     from jinns.data import append_param_batch, append_obs_batch
